@@ -41,6 +41,11 @@ THEOREMS = [
     "Typedpy.C13.explicit_required_equiv",
     "Typedpy.C13.explicit_required_example",
     "Typedpy.C13.pipe_literal_equiv",
+    "Typedpy.C13.elabField_meaningX",
+    "Typedpy.C13.elabClass_equivX",
+    "Typedpy.C13.same_observationX",
+    "Typedpy.C13.fieldSame_sameX",
+    "Typedpy.C13.classX_example",
     "Typedpy.C13.equiv_example",
 ]
 RULE = ("class bodies of 1-3 fields; each field an abstract meaning tree (scalar / constrained field literal / bare or "
